@@ -442,6 +442,14 @@ def body_combined(I, X, late_add=False):
             ok = pand(ok, peq(a, c), b == d)
     single = [(k, v) for k, v in I.call(cmd.items, ())]
     ok = pand(ok, len(single) == len(distinct))
+    # values() / listvalues() / lists() are the value sides of items() / lists(), one per distinct key
+    vals = list(I.call(cmd.values, ()))
+    ok = pand(ok, len(vals) == len(single), all(a == b for a, (_, b) in zip(vals, single)))
+    lsts = [(k, list(v)) for k, v in I.call(cmd.lists, ())]
+    lvals = [list(v) for v in I.call(cmd.listvalues, ())]
+    ok = pand(ok, len(lsts) == len(distinct), len(lvals) == len(lsts), all(a == b for a, (_, b) in zip(lvals, lsts)))
+    for (k, v), (k2, _) in zip(lsts, single):
+        ok = pand(ok, peq(k, k2), v == [b for a, b in multi if bool(peq(a, k))])
     td = I.call(cmd.to_dict, ())
     ok = pand(ok, len(list(I.dict_items(td))) == len(distinct))
     # get() with a type: the first wrapped dict whose first value for the key converts wins
